@@ -250,10 +250,9 @@ Qed.
 Lemma enc_bytes_isbyte : forall b, Forall isbyte b -> Forall isbyte (enc_bytes b).
 Proof. intros b H. unfold enc_bytes. apply Forall_app. split; [apply le_bytes | exact H]. Qed.
 
-Lemma enc_strs_isbyte : forall l, Forall wf_str l -> Forall isbyte (enc_strs l).
+Lemma flat_enc_isbyte : forall l, Forall wf_str l -> Forall isbyte (flat_map enc_bytes l).
 Proof.
-  intros l H. unfold enc_strs. apply Forall_app. split; [apply le_bytes|].
-  induction H as [|s l Hs Hl IH]; cbn [flat_map]; [constructor|].
+  intros l H. induction H as [|s l Hs Hl IH]; cbn [flat_map]; [constructor|].
   apply Forall_app. split; [apply enc_bytes_isbyte, Hs | exact IH].
 Qed.
 
@@ -262,10 +261,9 @@ Proof.
   intros e H. destruct e; cbn [wf_entry encode_entry] in *; unfold wf_str, wf_blob, i64, u32, u64 in *;
   repeat match goal with H : _ /\ _ |- _ => destruct H end;
   repeat (apply Forall_app; split);
-  try first [ apply le_bytes
-        | apply enc_strs_isbyte; assumption
-        | apply enc_bytes_isbyte; assumption ].
-  Show.
+  first [ assumption
+        | apply le_bytes
+        | apply flat_enc_isbyte; assumption ].
 Qed.
 
 Lemma d_record_app : forall r rest, valid_rec r ->
@@ -364,7 +362,7 @@ Lemma scan_frames_app : forall R f X, Forall valid_rec R ->
 Proof.
   induction R as [|r R IH]; intros f X H.
   - cbn [length frames flat_map app Nat.add]. destruct (scan f X) as [[rs t] g].
-    f_equal. unfold nlen. cbn. lia.
+    f_equal; try (unfold nlen; cbn; lia).
   - inversion H as [|? ? Hr HR]; subst. cbn [length Nat.add]. unfold frames. cbn [flat_map].
     fold (frames R). rewrite <- app_assoc, scan_step by exact Hr. rewrite IH by exact HR.
     destruct (scan f X) as [[rs t] g]. cbn [app]. f_equal.
@@ -395,4 +393,950 @@ Proof.
   pose proof (frames_length_ge R). rewrite app_nil_r.
   destruct (S (length (frames R)) - length R)%nat eqn:E; [lia|]. cbn [scan].
   rewrite app_nil_r. f_equal. lia.
+Qed.
+
+(* ------------------------------------------------------------------ *)
+(** * Replay of a directory whose files are whole records *)
+
+Definition afile := (N * list record)%type.
+Definition enc (afs : list afile) : dir := map (fun a => (fst a, frames (snd a))) afs.
+Definition recs (afs : list afile) : list record := concat (map snd afs).
+Definition keep (from : N) (L : list record) : list record := filter (fun r => from <=? seq r) L.
+
+Lemma last_seq_app : forall A B d, last_seq (A ++ B) d = last_seq B (last_seq A d).
+Proof. induction A as [|a A IH]; intros B d; cbn [app last_seq]; [reflexivity | apply IH]. Qed.
+
+Lemma keep_app : forall from A B, keep from (A ++ B) = keep from A ++ keep from B.
+Proof. intros. apply filter_app. Qed.
+
+Lemma recs_cons : forall a afs, recs (a :: afs) = snd a ++ recs afs.
+Proof. reflexivity. Qed.
+
+Lemma recs_app : forall A B, recs (A ++ B) = recs A ++ recs B.
+Proof. intros A B. unfold recs. now rewrite map_app, concat_app. Qed.
+
+Lemma replay_files_clean : forall afs from last, Forall valid_rec (recs afs) ->
+  replay_files (enc afs) from last =
+  (keep from (recs afs), Done (last_seq (keep from (recs afs)) last)).
+Proof.
+  induction afs as [|[n R] afs IH]; intros from last H; [reflexivity|].
+  rewrite recs_cons in H. cbn [snd] in H. apply Forall_app in H. destruct H as [HR HA].
+  cbn [enc map replay_files fst snd]. rewrite scan_file_frames by exact HR.
+  fold (enc afs). rewrite IH by exact HA. rewrite recs_cons. cbn [snd].
+  fold (keep from R). rewrite keep_app, last_seq_app. reflexivity.
+Qed.
+
+Lemma sort_sorted : forall d : dir, StronglySorted N.lt (map fst d) -> sort_dir d = d.
+Proof.
+  induction d as [|f d IH]; intros H; [reflexivity|].
+  cbn [map] in H. inversion H as [|? ? Hs Hf]; subst.
+  unfold sort_dir in *. cbn [fold_right]. rewrite IH by exact Hs.
+  destruct d as [|g d]; [reflexivity|]. cbn [insert].
+  cbn [map] in Hf. inversion Hf as [|? ? Hlt _]; subst.
+  replace (fst f <=? fst g) with true by lia. reflexivity.
+Qed.
+
+Lemma enc_names : forall afs, map fst (enc afs) = map fst afs.
+Proof. intros afs. unfold enc. rewrite map_map. reflexivity. Qed.
+
+Lemma enc_app : forall A B, enc (A ++ B) = enc A ++ enc B.
+Proof. intros. unfold enc. apply map_app. Qed.
+
+(* ------------------------------------------------------------------ *)
+(** * Specification of a history without crashes *)
+
+Fixpoint number (k : N) (l : list entry) : list record :=
+  match l with
+  | [] => []
+  | e :: r => mk_record k e :: number (k + 1) r
+  end.
+
+Definition op_entries (o : op) : list entry :=
+  match o with
+  | Append e => [e]
+  | Checkpoint a ts => [CheckpointE a ts]
+  | Reopen | Crash _ => []
+  end.
+
+Definition entries_of (ops : list op) : list entry := flat_map op_entries ops.
+(* what the log must contain: the appended entries in order, numbered 1, 2, 3, ... *)
+Definition appended (ops : list op) : list record := number 1 (entries_of ops).
+
+Definition no_crash (ops : list op) : bool :=
+  forallb (fun o => match o with Crash _ => false | _ => true end) ops.
+
+(* an entry that is a Rust value and whose record fits the u32 length prefix *)
+Definition ok_entry (e : entry) : Prop := wf_entry e /\ nlen (encode_entry e) + 12 < two32.
+
+Lemma number_app : forall a b k, number k (a ++ b) = number k a ++ number (k + nlen a) b.
+Proof.
+  induction a as [|e a IH]; intros b k; cbn [app number].
+  - f_equal. unfold nlen. cbn. lia.
+  - rewrite IH. do 3 f_equal. unfold nlen. cbn [length]. lia.
+Qed.
+
+Lemma number_valid : forall l k, Forall ok_entry l -> k + nlen l <= two64 ->
+  Forall valid_rec (number k l).
+Proof.
+  induction l as [|e l IH]; intros k H Hk; [constructor|].
+  inversion H as [|? ? [He Hl] Hr]; subst. unfold nlen in Hk. cbn [length] in Hk. cbn [number]. constructor.
+  - apply mk_record_valid; [exact He | lia | exact Hl].
+  - apply IH; [exact Hr | unfold nlen; lia].
+Qed.
+
+Lemma number_seq_sorted : forall l k, StronglySorted N.lt (map seq (number k l)).
+Proof.
+  assert (G : forall l k j, j < k -> Forall (N.lt j) (map seq (number k l))).
+  { induction l as [|e l IH]; intros k j H; cbn [number map]; constructor; [exact H|].
+    apply IH. lia. }
+  induction l as [|e l IH]; intros k; cbn [number map]; constructor; [apply IH|].
+  apply G. cbn. lia.
+Qed.
+
+Lemma last_seq_number : forall l k d, l <> [] -> last_seq (number k l) d = k + nlen l - 1.
+Proof.
+  induction l as [|e l IH]; intros k d H; [congruence|]. cbn [number last_seq].
+  destruct l as [|e' l].
+  - cbn. unfold nlen. cbn. lia.
+  - rewrite IH by discriminate. unfold nlen. cbn [length]. lia.
+Qed.
+
+Lemma last_seq_nonempty : forall R d d', R <> [] -> last_seq R d = last_seq R d'.
+Proof. intros [|r R] d d' H; [congruence | reflexivity]. Qed.
+
+(* ------------------------------------------------------------------ *)
+(** * Directory operations on a sorted directory *)
+
+Lemma dir_append_fresh : forall name bs (d : dir),
+  Forall (fun f => fst f <> name) d -> dir_append name bs d = d ++ [(name, bs)].
+Proof.
+  induction d as [|[n c] d IH]; intros H; [reflexivity|].
+  inversion H as [|? ? Hn Hd]; subst. cbn [fst] in Hn. cbn [dir_append].
+  replace (n =? name) with false by lia. cbn [app]. now rewrite IH.
+Qed.
+
+Lemma dir_append_last : forall name bs c (d : dir),
+  Forall (fun f => fst f <> name) d ->
+  dir_append name bs (d ++ [(name, c)]) = d ++ [(name, c ++ bs)].
+Proof.
+  induction d as [|[n c'] d IH]; intros H.
+  - cbn [app dir_append]. now rewrite N.eqb_refl.
+  - inversion H as [|? ? Hn Hd]; subst. cbn [fst] in Hn. cbn [app dir_append].
+    replace (n =? name) with false by lia. now rewrite IH.
+Qed.
+
+Lemma ss_app_last : forall l c, StronglySorted N.lt l -> Forall (fun x => x < c) l ->
+  StronglySorted N.lt (l ++ [c]).
+Proof.
+  induction l as [|x l IH]; intros c Hs Hf; cbn [app].
+  - constructor; constructor.
+  - inversion Hs as [|? ? Hs' Hx]; subst. inversion Hf as [|? ? Hxc Hf']; subst.
+    constructor; [now apply IH|]. apply Forall_app. split; [exact Hx | constructor; [exact Hxc | constructor]].
+Qed.
+
+Lemma ss_app_inv : forall l c, StronglySorted N.lt (l ++ [c]) ->
+  StronglySorted N.lt l /\ Forall (fun x => x < c) l.
+Proof.
+  induction l as [|x l IH]; intros c H; cbn [app] in H.
+  - split; constructor.
+  - inversion H as [|? ? Hs Hx]; subst. apply IH in Hs. destruct Hs as [Hs Hf].
+    apply Forall_app in Hx. destruct Hx as [Hx Hc]. inversion Hc; subst.
+    split; constructor; assumption.
+Qed.
+
+Definition pick (acc : option file) (f : file) : option file :=
+  match acc with None => Some f | Some g => if fst g <? fst f then Some f else acc end.
+
+Lemma newest_fold : forall d acc,
+  (acc = None /\ d = [] /\ fold_left pick d acc = None) \/
+  (exists h, fold_left pick d acc = Some h /\ (In h d \/ acc = Some h)).
+Proof.
+  induction d as [|f d IH]; intros acc; cbn [fold_left].
+  - destruct acc as [h|]; [right; exists h; auto | left; auto].
+  - right. destruct (IH (pick acc f)) as [(E & _ & _)|(h & E & [Hi|Ha])].
+    + destruct acc as [g|]; cbn in E; [destruct (fst g <? fst f)|]; discriminate.
+    + exists h. split; [exact E | left; now right].
+    + exists h. split; [exact E|]. destruct acc as [g|]; cbn in Ha.
+      * destruct (fst g <? fst f); inversion Ha; subst; [left; now left | right; reflexivity].
+      * inversion Ha; subst. left; now left.
+Qed.
+
+Lemma newest_eq : forall d, newest d = fold_left pick d None.
+Proof. reflexivity. Qed.
+
+Lemma newest_last : forall (d : dir) f, StronglySorted N.lt (map fst (d ++ [f])) ->
+  newest (d ++ [f]) = Some f.
+Proof.
+  intros d f H. rewrite map_app in H. cbn [map] in H. apply ss_app_inv in H. destruct H as [_ Hf].
+  rewrite newest_eq, fold_left_app. cbn [fold_left].
+  destruct (newest_fold d None) as [(_ & _ & E)|(h & E & [Hi|Ha])]; [now rewrite E | | discriminate].
+  rewrite E. cbn [pick]. rewrite Forall_forall in Hf. specialize (Hf (fst h) (in_map fst _ _ Hi)).
+  replace (fst h <? fst f) with true by lia. reflexivity.
+Qed.
+
+(* ------------------------------------------------------------------ *)
+(** * Invariant of crash-free histories *)
+
+Definition Inv (s : state) (ents : list entry) : Prop :=
+  exists afs : list afile,
+    sdir s = enc afs /\ recs afs = number 1 ents /\ counter s = nlen ents /\
+    StronglySorted N.lt (map fst afs) /\
+    Forall (fun a : afile => snd a <> []) afs /\
+    Forall (fun a : afile => fst a <= counter s) afs /\
+    match cur s with None => True | Some n => exists afs' R, afs = afs' ++ [(n, R)] end.
+
+Lemma Inv_init : Inv init [].
+Proof.
+  exists []. cbn. repeat split; try constructor.
+Qed.
+
+Lemma frames_single : forall r, frames [r] = frame r.
+Proof. intros r. unfold frames. cbn [flat_map]. apply app_nil_r. Qed.
+
+Lemma names_ne : forall (afs : list afile) c, Forall (fun a : afile => fst a < c) afs ->
+  Forall (fun f : file => fst f <> c) (enc afs).
+Proof.
+  intros afs c H. unfold enc. rewrite Forall_map. eapply Forall_impl; [|exact H].
+  intros a Ha. cbn [fst] in *. cbn beta in Ha. lia.
+Qed.
+
+Lemma append_inv : forall s ents e, Inv s ents -> nlen ents + 1 < two64 ->
+  exists s', append s e = Some s' /\ Inv s' (ents ++ [e]) /\ counter s' = counter s + 1.
+Proof.
+  intros s ents e (afs & Hd & Hr & Hc & Hs & Hne & Hle & Hcur) Hb.
+  unfold append. replace (two64 <=? counter s + 1) with false by (unfold two64 in *; lia).
+  eexists. split; [reflexivity|]. split; [|reflexivity].
+  set (c := counter s + 1). set (r := mk_record c e).
+  assert (Hnum : number 1 (ents ++ [e]) = number 1 ents ++ [r]).
+  { rewrite number_app. cbn [number]. subst r c. rewrite Hc. now rewrite (N.add_comm 1). }
+  assert (Hlen : nlen (ents ++ [e]) = c).
+  { subst c. unfold nlen in *. rewrite app_length. cbn [length]. lia. }
+  destruct (cur s) as [n|] eqn:Ecur.
+  - destruct Hcur as (afs' & R & ->).
+    rewrite map_app in Hs. cbn [map fst] in Hs. pose proof (ss_app_inv _ _ Hs) as [_ Hlt].
+    exists (afs' ++ [(n, R ++ [r])]). cbn [sdir counter cur].
+    rewrite Hd, enc_app. cbn [enc map fst snd]. rewrite dir_append_last.
+    2:{ apply names_ne. rewrite Forall_map in Hlt. exact Hlt. }
+    repeat split.
+    + rewrite enc_app. cbn [enc map fst snd]. now rewrite frames_app, frames_single.
+    + rewrite recs_app in *. unfold recs in *. cbn [map concat snd] in *. rewrite !app_nil_r in *.
+      rewrite Hnum, <- Hr. now rewrite app_assoc.
+    + symmetry; exact Hlen.
+    + rewrite map_app. exact Hs.
+    + apply Forall_app in Hne. destruct Hne as [H1 _]. apply Forall_app. split; [exact H1|].
+      constructor; [|constructor]. cbn [snd]. destruct R; discriminate.
+    + apply Forall_app in Hle. destruct Hle as [H1 H2]. apply Forall_app. split.
+      * eapply Forall_impl; [|exact H1]. intros a Ha. cbn beta in *. lia.
+      * inversion H2; subst. constructor; [|constructor]. cbn [fst] in *. lia.
+    + now exists afs', (R ++ [r]).
+  - exists (afs ++ [(c, [r])]). cbn [sdir counter cur].
+    rewrite Hd, dir_append_fresh.
+    2:{ apply names_ne. eapply Forall_impl; [|exact Hle]. intros a Ha. cbn beta in *. lia. }
+    repeat split.
+    + rewrite enc_app. cbn [enc map fst snd]. now rewrite frames_single.
+    + rewrite recs_app. unfold recs at 2. cbn [map concat snd]. rewrite app_nil_r. now rewrite Hnum, Hr.
+    + symmetry; exact Hlen.
+    + rewrite map_app. cbn [map fst]. apply ss_app_last; [exact Hs|].
+      rewrite Forall_map. eapply Forall_impl; [|exact Hle]. intros a Ha. cbn beta in *. lia.
+    + apply Forall_app. split; [exact Hne|]. constructor; [discriminate|constructor].
+    + apply Forall_app. split.
+      * eapply Forall_impl; [|exact Hle]. intros a Ha. cbn beta in *. lia.
+      * constructor; [cbn [fst]; lia|constructor].
+    + now exists afs, [r].
+Qed.
+
+Lemma exists_last_or_nil : forall (A : Type) (l : list A),
+  l = [] \/ exists l' a, l = l' ++ [a].
+Proof.
+  intros A l. destruct l as [|x l]; [now left|]. right.
+  destruct (@exists_last A (x :: l)) as (l' & a & E); [discriminate|]. now exists l', a.
+Qed.
+
+Lemma number_nil_inv : forall k l, number k l = [] -> l = [].
+Proof. intros k [|e l] H; [reflexivity | discriminate]. Qed.
+
+Lemma reopen_inv : forall s ents, Inv s ents -> Forall ok_entry ents -> nlen ents < two64 ->
+  Inv (reopen s) ents /\ counter (reopen s) = counter s /\ sdir (reopen s) = sdir s.
+Proof.
+  intros s ents (afs & Hd & Hr & Hc & Hs & Hne & Hle & Hcur) Hok Hb.
+  destruct (exists_last_or_nil _ afs) as [->|(afs' & [n R] & ->)].
+  - cbn [recs map concat] in Hr. symmetry in Hr. apply number_nil_inv in Hr. subst ents.
+    unfold reopen. rewrite Hd. cbn [enc map newest fold_left].
+    split; [|split; [cbn [counter]; rewrite Hc; reflexivity | reflexivity]].
+    exists []. cbn [sdir counter cur]. repeat split; constructor.
+  - assert (HV : Forall valid_rec (number 1 ents)).
+    { apply number_valid; [exact Hok | unfold two64 in *; lia]. }
+    rewrite <- Hr in HV.
+    assert (HR : Forall valid_rec R).
+    { rewrite recs_app in HV. apply Forall_app in HV. destruct HV as [_ HV].
+      unfold recs in HV. cbn [map concat snd] in HV. now rewrite app_nil_r in HV. }
+    assert (RN : R <> []).
+    { apply Forall_app in Hne. destruct Hne as [_ H2]. inversion H2; subst. assumption. }
+    unfold reopen. rewrite Hd, enc_app. cbn [enc map fst snd].
+    rewrite newest_last.
+    2:{ change [(n, frames R)] with (enc [(n, R)]). fold (enc afs'). rewrite <- enc_app, enc_names. exact Hs. }
+    rewrite scan_file_frames by exact HR. cbn [sdir counter cur].
+    assert (Ecnt : last_seq R n = counter s).
+    { rewrite (last_seq_nonempty R n (last_seq (recs afs') 0)) by exact RN.
+      rewrite <- last_seq_app.
+      assert (E : recs afs' ++ R = number 1 ents).
+      { rewrite <- Hr, recs_app. unfold recs at 3. cbn [map concat snd]. now rewrite app_nil_r. }
+      rewrite E. rewrite last_seq_number.
+      - rewrite Hc. lia.
+      - intros ->. cbn in E. destruct (recs afs'); destruct R; try discriminate; congruence. }
+    split; [|split; [exact Ecnt | reflexivity]].
+    exists (afs' ++ [(n, R)]). cbn [sdir counter cur]. rewrite Ecnt.
+    repeat split; try assumption. now rewrite enc_app.
+Qed.
+
+Lemma step_inv : forall s ents o, Inv s ents ->
+  (match o with Crash _ => False | _ => True end) ->
+  Forall ok_entry ents -> nlen (ents ++ op_entries o) < two64 ->
+  exists s', step s o = Some s' /\ Inv s' (ents ++ op_entries o).
+Proof.
+  intros s ents o HI Hnc Hok Hb. destruct o as [e| |a ts|k]; cbn [step op_entries] in *.
+  - destruct (append_inv s ents e HI) as (s' & E & HI' & _).
+    { unfold nlen in *. rewrite app_length in Hb. cbn [length] in Hb. lia. }
+    exists s'. now split.
+  - rewrite app_nil_r in *. eexists. split; [reflexivity|]. now apply reopen_inv.
+  - destruct (append_inv s ents (CheckpointE a ts) HI) as (s' & E & HI' & _).
+    { unfold nlen in *. rewrite app_length in Hb. cbn [length] in Hb. lia. }
+    unfold checkpoint. rewrite E. eexists. split; [reflexivity|].
+    destruct HI' as (afs & H1 & H2 & H3 & H4 & H5 & H6 & _).
+    exists afs. cbn [sdir counter cur]. repeat split; assumption.
+  - contradiction.
+Qed.
+
+Lemma run_inv : forall ops s ents, Inv s ents -> no_crash ops = true ->
+  Forall ok_entry (ents ++ entries_of ops) -> nlen (ents ++ entries_of ops) < two64 ->
+  exists s', run_from s ops = Some s' /\ Inv s' (ents ++ entries_of ops).
+Proof.
+  induction ops as [|o ops IH]; intros s ents HI Hnc Hok Hb.
+  - cbn [entries_of flat_map run_from] in *. rewrite app_nil_r. now exists s.
+  - cbn [no_crash forallb] in Hnc. apply andb_true_iff in Hnc. destruct Hnc as [Ho Hnc].
+    unfold entries_of in *. cbn [flat_map] in *. rewrite app_assoc in Hok, Hb |- *.
+    destruct (step_inv s ents o HI) as (s1 & E1 & HI1).
+    + destruct o; try exact I. discriminate.
+    + apply Forall_app in Hok. destruct Hok as [Hok _]. apply Forall_app in Hok. tauto.
+    + unfold nlen in *. rewrite app_length in Hb. lia.
+    + cbn [run_from]. rewrite E1. apply IH; assumption.
+Qed.
+
+Lemma Inv_replay : forall s ents from, Inv s ents -> Forall ok_entry ents -> nlen ents < two64 ->
+  replay (sdir s) from =
+  (keep from (number 1 ents), Done (last_seq (keep from (number 1 ents)) from)).
+Proof.
+  intros s ents from (afs & Hd & Hr & _ & Hs & _) Hok Hb.
+  unfold replay. rewrite Hd, sort_sorted by (rewrite enc_names; exact Hs).
+  rewrite replay_files_clean; rewrite Hr; [reflexivity|].
+  apply number_valid; [exact Hok | unfold two64 in *; lia].
+Qed.
+
+(* the statement used for the property: all appended records, in order *)
+Definition ops_ok (ops : list op) : Prop :=
+  no_crash ops = true /\ Forall ok_entry (entries_of ops) /\ nlen (entries_of ops) < two64.
+
+Lemma replay_all : forall ops, ops_ok ops ->
+  exists s, run ops = Some s /\
+    forall from, replay (sdir s) from =
+      (keep from (appended ops), Done (last_seq (keep from (appended ops)) from)).
+Proof.
+  intros ops (Hnc & Hok & Hb). destruct (run_inv ops init [] Inv_init Hnc Hok Hb) as (s & E & HI).
+  exists s. split; [exact E|]. intros from. cbn [app] in HI. now apply Inv_replay.
+Qed.
+
+Lemma keep_zero : forall L, keep 0 L = L.
+Proof.
+  induction L as [|r L IH]; [reflexivity|]. unfold keep in *. cbn [filter].
+  replace (0 <=? seq r) with true by lia. now rewrite IH.
+Qed.
+
+Lemma replay_all_0 : forall ops, ops_ok ops ->
+  exists s, run ops = Some s /\
+    replay (sdir s) 0 = (appended ops, Done (last_seq (appended ops) 0)).
+Proof.
+  intros ops H. destruct (replay_all ops H) as (s & E & Hr). exists s. split; [exact E|].
+  rewrite Hr, keep_zero. reflexivity.
+Qed.
+
+(* sequence numbers: the i-th appended record carries number i, whatever reopens and
+   checkpoints happened in between; in particular they increase strictly *)
+Lemma appended_seq_strict : forall ops, StronglySorted N.lt (map seq (appended ops)).
+Proof. intros ops. apply number_seq_sorted. Qed.
+
+Lemma appended_entries : forall ops, map ent (appended ops) = entries_of ops.
+Proof.
+  intros ops. unfold appended. generalize 1. induction (entries_of ops) as [|e l IH]; intros k; [reflexivity|].
+  cbn [number map ent mk_record]. now rewrite IH.
+Qed.
+
+(* append's return value is the number of the record written *)
+Lemma append_returns : forall s ents e, Inv s ents -> nlen ents + 1 < two64 ->
+  exists s', append s e = Some s' /\ counter s' = nlen ents + 1.
+Proof.
+  intros s ents e HI Hb. pose proof HI as (afs & _ & _ & Hc & _).
+  destruct (append_inv s ents e HI Hb) as (s' & E & _ & Hc'). exists s'. split; [exact E|]. lia.
+Qed.
+
+(* ------------------------------------------------------------------ *)
+(** * Torn tail: the newest file cut at any byte *)
+
+(* the records whose bytes lie entirely within the first [k] bytes *)
+Fixpoint fit (k : N) (R : list record) : list record :=
+  match R with
+  | [] => []
+  | r :: R' => let l := nlen (frame r) in if l <=? k then r :: fit (k - l) R' else []
+  end.
+
+Lemma fit_prefix : forall R k, exists T, R = fit k R ++ T.
+Proof.
+  induction R as [|r R IH]; intros k; cbn [fit]; [now exists []|]. cbv zeta.
+  destruct (nlen (frame r) <=? k).
+  - destruct (IH (k - nlen (frame r))) as [T E]. exists T. cbn [app]. now rewrite <- E.
+  - now exists (r :: R).
+Qed.
+
+(* [fit] is the longest prefix of whole records within [k] bytes *)
+Lemma fit_longest : forall R k,
+  exists T, R = fit k R ++ T /\ nlen (frames (fit k R)) <= k /\
+            match T with [] => True | r :: _ => k < nlen (frames (fit k R)) + nlen (frame r) end.
+Proof.
+  induction R as [|r R IH]; intros k; cbn [fit]. { exists []. cbn [fit app frames flat_map]. split; [reflexivity|]. split; [unfold nlen; cbn [length]; lia | exact I]. }
+  cbv zeta. destruct (N.leb_spec (nlen (frame r)) k) as [Hle|Hgt].
+  - destruct (IH (k - nlen (frame r))) as (T & E & H1 & H2). exists T. cbn [app]. rewrite <- E.
+    split; [reflexivity|]. unfold frames in *. cbn [flat_map]. unfold nlen in *. rewrite app_length.
+    split; [lia|]. destruct T; [exact I|]. lia.
+  - exists (r :: R). cbn [app]. split; [reflexivity|]. cbn [frames flat_map]. unfold nlen in *. cbn [length]. split; lia.
+Qed.
+
+Lemma trunc_split : forall R k,
+  exists X, firstn (N.to_nat k) (frames R) = frames (fit k R) ++ X /\
+    (X = [] \/ exists r T, R = fit k R ++ r :: T /\ X = firstn (length X) (frame r)
+                           /\ (0 < length X < length (frame r))%nat).
+Proof.
+  induction R as [|r R IH]; intros k.
+  - exists []. cbn [frames flat_map fit]. rewrite firstn_nil. split; [reflexivity | now left].
+  - unfold frames at 1. cbn [flat_map fit]. fold (frames R). cbv zeta. rewrite firstn_app.
+    destruct (N.leb_spec (nlen (frame r)) k) as [Hle|Hgt].
+    + destruct (IH (k - nlen (frame r))) as (X & E & HX).
+      rewrite firstn_all2 by (unfold nlen in Hle; lia).
+      replace (N.to_nat k - length (frame r))%nat with (N.to_nat (k - nlen (frame r))) by (unfold nlen; lia).
+      rewrite E. exists X. split.
+      * unfold frames at 2. cbn [flat_map]. fold (frames (fit (k - nlen (frame r)) R)). now rewrite app_assoc.
+      * destruct HX as [->|(r' & T & E1 & E2 & E3)]; [now left|]. right. exists r', T.
+        split; [|split; assumption]. cbn [app]. now rewrite <- E1.
+    + replace (N.to_nat k - length (frame r))%nat with 0%nat by (unfold nlen in Hgt; lia).
+      rewrite firstn_O, app_nil_r. exists (firstn (N.to_nat k) (frame r)). cbn [frames flat_map app].
+      split; [reflexivity|].
+      assert (HL : length (firstn (N.to_nat k) (frame r)) = N.to_nat k).
+      { apply firstn_length_le. unfold nlen in Hgt. lia. }
+      destruct (N.eq_dec k 0) as [->|Hk]; [left; reflexivity|]. right. exists r, R.
+      split; [reflexivity|]. rewrite HL. split; [reflexivity|]. unfold nlen in Hgt. lia.
+Qed.
+
+Lemma firstn4_u32 : forall x b, firstn 4 (u32 x ++ b) = u32 x.
+Proof. intros x b. replace 4%nat with (length (u32 x)) by apply le_length. apply firstn_app_exact. Qed.
+Lemma skipn4_u32 : forall x b, skipn 4 (u32 x ++ b) = b.
+Proof. intros x b. replace 4%nat with (length (u32 x)) by apply le_length. apply skipn_app_exact. Qed.
+
+Lemma scan_torn_tail : forall r m f, valid_rec r -> (0 < m < length (frame r))%nat ->
+  scan (S f) (firstn m (frame r)) = ([], Torn, 0).
+Proof.
+  intros r m f Hv Hm. pose proof Hv as (_ & _ & _ & Hl).
+  assert (HL : length (firstn m (frame r)) = m) by (apply firstn_length_le; lia).
+  rewrite scan_S by (intros E; rewrite E in HL; cbn in HL; lia).
+  destruct (N.ltb_spec (nlen (firstn m (frame r))) 4) as [|H4]; [reflexivity|].
+  unfold nlen in H4. rewrite HL in H4. cbv zeta.
+  rewrite frame_length in Hm. unfold frame. cbv zeta.
+  assert (E : firstn m (u32 (nlen (encode_record r)) ++ encode_record r)
+              = u32 (nlen (encode_record r)) ++ firstn (m - 4) (encode_record r)).
+  { assert (L4 : length (u32 (nlen (encode_record r))) = 4%nat) by apply le_length.
+    rewrite firstn_app, L4. rewrite firstn_all2 by lia. reflexivity. }
+  rewrite E. rewrite firstn4_u32, skipn4_u32, unle_u32 by exact Hl.
+  replace (nlen (firstn (m - 4) (encode_record r)) <? nlen (encode_record r)) with true; [reflexivity|].
+  unfold nlen. rewrite firstn_length_le by lia. lia.
+Qed.
+
+Lemma scan_file_trunc : forall R k, Forall valid_rec R ->
+  exists t, scan_file (firstn (N.to_nat k) (frames R)) = (fit k R, t, nlen (frames (fit k R)))
+            /\ (t = Clean \/ t = Torn).
+Proof.
+  intros R k HV. destruct (trunc_split R k) as (X & E & HX). rewrite E.
+  assert (HF : Forall valid_rec (fit k R)).
+  { destruct (fit_prefix R k) as [T ET]. rewrite ET in HV. apply Forall_app in HV. tauto. }
+  rewrite scan_file_frames_app by exact HF.
+  pose proof (frames_length_ge (fit k R)) as HG.
+  destruct (S (length (frames (fit k R) ++ X)) - length (fit k R))%nat as [|f] eqn:Ef.
+  { rewrite app_length in Ef. lia. }
+  destruct HX as [->|(r & T & ER & EX & HL)].
+  - cbn [scan]. exists Clean. rewrite app_nil_r. split; [f_equal; lia | now left].
+  - rewrite EX, scan_torn_tail.
+    + exists Torn. rewrite app_nil_r. split; [f_equal; lia | now right].
+    + rewrite ER in HV. apply Forall_app in HV. destruct HV as [_ HV]. now inversion HV.
+    + exact HL.
+Qed.
+
+Lemma replay_files_app_clean : forall A rest from last, Forall valid_rec (recs A) ->
+  replay_files (enc A ++ rest) from last =
+  let '(rs, o) := replay_files rest from (last_seq (keep from (recs A)) last) in
+  (keep from (recs A) ++ rs, o).
+Proof.
+  induction A as [|[n R] A IH]; intros rest from last H.
+  - cbn [enc map app recs concat keep filter last_seq]. now destruct (replay_files rest from last).
+  - rewrite recs_cons in H. cbn [snd] in H. apply Forall_app in H. destruct H as [HR HA].
+    cbn [enc map app replay_files fst snd]. rewrite scan_file_frames by exact HR.
+    fold (enc A). rewrite IH by exact HA. rewrite recs_cons. cbn [snd].
+    fold (keep from R). rewrite keep_app, last_seq_app.
+    destruct (replay_files rest from _) as [rs o]. now rewrite app_assoc.
+Qed.
+
+Lemma set_file_last : forall name bs c (d : dir),
+  Forall (fun f => fst f <> name) d ->
+  set_file name bs (d ++ [(name, c)]) = d ++ [(name, bs)].
+Proof.
+  intros name bs c d H. unfold set_file. rewrite map_app. cbn [map fst]. rewrite N.eqb_refl. f_equal.
+  induction H as [|f d Hf Hd IH]; [reflexivity|]. cbn [map]. rewrite IH.
+  replace (fst f =? name) with false by lia. reflexivity.
+Qed.
+
+(* replay of a directory whose last file is cut at byte k *)
+Lemma replay_trunc : forall afs' n R k from,
+  StronglySorted N.lt (map fst (afs' ++ [(n, R)])) ->
+  Forall valid_rec (recs (afs' ++ [(n, R)])) ->
+  replay (truncate_newest k (enc (afs' ++ [(n, R)]))) from =
+  (keep from (recs afs' ++ fit k R), Done (last_seq (keep from (recs afs' ++ fit k R)) from)).
+Proof.
+  intros afs' n R k from Hs HV.
+  rewrite recs_app in HV. apply Forall_app in HV. destruct HV as [HA HR].
+  unfold recs in HR at 1. cbn [map concat snd] in HR. rewrite app_nil_r in HR.
+  pose proof Hs as Hs'. rewrite map_app in Hs'. cbn [map fst] in Hs'. apply ss_app_inv in Hs'. destruct Hs' as [_ Hlt].
+  unfold truncate_newest. rewrite enc_app. cbn [enc map fst snd].
+  rewrite newest_last.
+  2:{ change [(n, frames R)] with (enc [(n, R)]). fold (enc afs'). rewrite <- enc_app, enc_names. exact Hs. }
+  rewrite set_file_last by (apply names_ne; rewrite Forall_map in Hlt; exact Hlt).
+  unfold replay. rewrite sort_sorted.
+  2:{ rewrite map_app. fold (enc afs'). rewrite enc_names. cbn [map fst]. rewrite map_app in Hs. exact Hs. }
+  fold (enc afs'). rewrite replay_files_app_clean by exact HA.
+  cbn [replay_files]. destruct (scan_file_trunc R k HR) as (t & Et & Ht). rewrite Et.
+  fold (keep from (fit k R)). rewrite keep_app, last_seq_app.
+  destruct Ht as [->| ->]; cbn [replay_files]; rewrite ?app_nil_r; reflexivity.
+Qed.
+
+Lemma Inv_valid : forall s ents, Inv s ents -> Forall ok_entry ents -> nlen ents < two64 ->
+  exists afs, sdir s = enc afs /\ recs afs = number 1 ents /\
+              StronglySorted N.lt (map fst afs) /\ Forall valid_rec (recs afs).
+Proof.
+  intros s ents (afs & Hd & Hr & _ & Hs & _) Hok Hb. exists afs. repeat split; try assumption.
+  rewrite Hr. apply number_valid; [exact Hok | unfold two64 in *; lia].
+Qed.
+
+Lemma torn_all : forall ops, ops_ok ops ->
+  exists s before lastR,
+    run ops = Some s /\ appended ops = before ++ lastR /\
+    match newest (sdir s) with
+    | None => before ++ lastR = []
+    | Some (_, bs) => bs = frames lastR
+    end /\
+    forall k from,
+      replay (truncate_newest k (sdir s)) from =
+      (keep from (before ++ fit k lastR), Done (last_seq (keep from (before ++ fit k lastR)) from)).
+Proof.
+  intros ops (Hnc & Hok & Hb). destruct (run_inv ops init [] Inv_init Hnc Hok Hb) as (s & E & HI).
+  cbn [app] in HI. destruct (Inv_valid s _ HI Hok Hb) as (afs & Hd & Hr & Hs & HV).
+  exists s. destruct (exists_last_or_nil _ afs) as [->|(afs' & [n R] & ->)].
+  - exists [], []. rewrite Hd. cbn [enc map newest fold_left app]. repeat split; try assumption.
+    unfold appended. now rewrite <- Hr.
+  - exists (recs afs'), R. split; [exact E|]. split.
+    { unfold appended. rewrite <- Hr, recs_app. unfold recs at 2. cbn [map concat snd]. now rewrite app_nil_r. }
+    rewrite Hd. split.
+    + rewrite enc_app. cbn [enc map fst snd]. rewrite newest_last; [reflexivity|].
+      change [(n, frames R)] with (enc [(n, R)]). fold (enc afs'). rewrite <- enc_app, enc_names. exact Hs.
+    + intros k from. now apply replay_trunc.
+Qed.
+
+(* ------------------------------------------------------------------ *)
+(** * One changed byte *)
+
+Lemma set_nth_length : forall l p v, length (set_nth p v l) = length l.
+Proof. induction l as [|x l IH]; intros [|p] v; cbn [set_nth length]; auto. Qed.
+
+Lemma set_nth_app_l : forall a b p v, (p < length a)%nat ->
+  set_nth p v (a ++ b) = set_nth p v a ++ b.
+Proof.
+  induction a as [|x a IH]; intros b p v H; cbn [length] in H; [lia|].
+  destruct p as [|p]; cbn [app set_nth]; [reflexivity|]. rewrite IH by lia. reflexivity.
+Qed.
+
+Lemma set_nth_app_r : forall a b p v, (length a <= p)%nat ->
+  set_nth p v (a ++ b) = a ++ set_nth (p - length a) v b.
+Proof.
+  induction a as [|x a IH]; intros b p v H; cbn [length app] in *.
+  - now rewrite Nat.sub_0_r.
+  - destruct p as [|p]; [lia|]. cbn [set_nth]. rewrite IH by lia. reflexivity.
+Qed.
+
+Lemma set_nth_neq : forall l p v, (p < length l)%nat -> v <> nth p l 0 -> set_nth p v l <> l.
+Proof.
+  induction l as [|x l IH]; intros p v H Hv; cbn [length] in H; [lia|].
+  destruct p as [|p]; cbn [set_nth nth] in *.
+  - intros E. inversion E. congruence.
+  - intros E. inversion E as [E']. revert E'. apply IH; [lia | exact Hv].
+Qed.
+
+Lemma set_nth_isbyte : forall l p v, Forall isbyte l -> isbyte v -> Forall isbyte (set_nth p v l).
+Proof.
+  induction l as [|x l IH]; intros p v H Hv; [destruct p; constructor|]. inversion H; subst.
+  destruct p; cbn [set_nth]; constructor; auto.
+Qed.
+
+Lemma nth_app_l : forall (a b : bytes) p, (p < length a)%nat -> nth p (a ++ b) 0 = nth p a 0.
+Proof. intros. now apply app_nth1. Qed.
+Lemma nth_app_r : forall (a b : bytes) p, (length a <= p)%nat -> nth p (a ++ b) 0 = nth (p - length a) b 0.
+Proof. intros. now apply app_nth2. Qed.
+
+Lemma lxor_cancel_l : forall a b c, N.lxor a b = N.lxor a c -> b = c.
+Proof.
+  intros a b c H. apply (f_equal (N.lxor a)) in H.
+  rewrite <- !N.lxor_assoc, N.lxor_nilpotent, !N.lxor_0_l in H. exact H.
+Qed.
+
+Lemma xor_set_nth : forall l p v, (p < length l)%nat -> v <> nth p l 0 ->
+  xor_bytes (set_nth p v l) <> xor_bytes l.
+Proof.
+  induction l as [|x l IH]; intros p v H Hv; cbn [length] in H; [lia|].
+  destruct p as [|p]; cbn [set_nth nth] in *; rewrite !xor_cons; intros E.
+  - rewrite (N.lxor_comm v), (N.lxor_comm x) in E. apply lxor_cancel_l in E. congruence.
+  - apply lxor_cancel_l in E. revert E. apply IH; [lia | exact Hv].
+Qed.
+
+Lemma app_eq_len : forall (a a' b b' : bytes), length a = length a' -> a ++ b = a' ++ b' ->
+  a = a' /\ b = b'.
+Proof.
+  induction a as [|x a IH]; intros [|y a'] b b' HL E; cbn [length] in HL; try lia.
+  - now split.
+  - cbn [app] in E. inversion E; subst. destruct (IH a' b b') as [-> ->]; [lia | assumption | now split].
+Qed.
+
+Lemma u32_inj_byte : forall x y, isbyte x -> isbyte y -> u32 x = u32 y -> x = y.
+Proof.
+  intros x y Hx Hy E. apply (f_equal unle) in E. unfold isbyte in *.
+  rewrite !unle_u32 in E by (unfold two32; lia). exact E.
+Qed.
+
+(* a byte changed after the sequence field of a record body is always noticed *)
+Lemma flip_body_detected : forall r q v, valid_rec r ->
+  (8 <= q < length (encode_record r))%nat -> isbyte v -> v <> nth q (encode_record r) 0 ->
+  decode_record (set_nth q v (encode_record r)) = None.
+Proof.
+  intros r q v (He & Hs & Hc & _) Hq Hv Hne.
+  destruct (decode_record (set_nth q v (encode_record r))) as [r'|] eqn:D; [exfalso | reflexivity].
+  apply decode_inv in D. destruct D as [Eb Ec].
+  pose proof (f_equal (@length N) Eb) as HL. rewrite set_nth_length in HL.
+  unfold encode_record in *. rewrite Hc in *. rewrite Ec in *.
+  set (E := encode_entry (ent r)) in *. set (E' := encode_entry (ent r')) in *.
+  assert (L8 : forall x, length (u64 x) = 8%nat) by (intros; apply le_length).
+  assert (L4 : forall x, length (u32 x) = 4%nat) by (intros; apply le_length).
+  rewrite !app_length, !L8, !L4 in HL. rewrite !app_length, L8, L4 in Hq.
+  rewrite set_nth_app_r in Eb by (rewrite L8; lia). rewrite L8 in Eb.
+  rewrite nth_app_r in Hne by (rewrite L8; lia). rewrite L8 in Hne.
+  apply app_eq_len in Eb; [|now rewrite !L8]. destruct Eb as [_ Eb].
+  assert (Eby : Forall isbyte E) by (apply encode_entry_isbyte; exact He).
+  destruct (Nat.lt_ge_cases (q - 8) (length E)) as [Hin|Hout].
+  - rewrite set_nth_app_l in Eb by exact Hin. rewrite nth_app_l in Hne by exact Hin.
+    apply app_eq_len in Eb; [|rewrite set_nth_length; lia]. destruct Eb as [E1 E2].
+    apply u32_inj_byte in E2.
+    + rewrite <- E1 in E2. symmetry in E2. revert E2. apply xor_set_nth; assumption.
+    + now apply xor_bound.
+    + apply xor_bound. rewrite <- E1. now apply set_nth_isbyte.
+  - rewrite set_nth_app_r in Eb by exact Hout. rewrite nth_app_r in Hne by exact Hout.
+    apply app_eq_len in Eb; [|lia]. destruct Eb as [E1 E2]. rewrite <- E1 in E2.
+    revert E2. apply set_nth_neq; [rewrite L4; lia | exact Hne].
+Qed.
+
+(* ------------------------------------------------------------------ *)
+(** * Parsers do not look beyond what they consume *)
+
+Definition ext {A} (p : parser A) : Prop :=
+  forall b x r t, p b = Some (x, r) -> p (b ++ t) = Some (x, r ++ t).
+
+Lemma take_ext : forall n, ext (take n).
+Proof.
+  intros n b x r t H. unfold take in *. destruct (Nat.leb_spec n (length b)) as [Hle|]; [|discriminate].
+  inversion H; subst. rewrite app_length. replace (Nat.leb n (length b + length t)) with true
+    by (symmetry; apply Nat.leb_le; lia).
+  rewrite firstn_app, skipn_app. replace (n - length b)%nat with 0%nat by lia.
+  rewrite firstn_O, skipn_O, app_nil_r. reflexivity.
+Qed.
+
+Lemma d_u32_ext : ext d_u32.
+Proof.
+  intros b x r t H. unfold d_u32 in *. destruct (take 4 b) as [[h r']|] eqn:E; [|discriminate].
+  inversion H; subst. now rewrite (take_ext 4 _ _ _ t E).
+Qed.
+Lemma d_u64_ext : ext d_u64.
+Proof.
+  intros b x r t H. unfold d_u64 in *. destruct (take 8 b) as [[h r']|] eqn:E; [|discriminate].
+  inversion H; subst. now rewrite (take_ext 8 _ _ _ t E).
+Qed.
+Lemma d_i64_ext : ext d_i64.
+Proof.
+  intros b x r t H. unfold d_i64 in *. destruct (d_u64 b) as [[h r']|] eqn:E; [|discriminate].
+  inversion H; subst. now rewrite (d_u64_ext _ _ _ t E).
+Qed.
+Lemma d_bytes_ext : ext d_bytes.
+Proof.
+  intros b x r t H. unfold d_bytes in *. destruct (d_u64 b) as [[l r']|] eqn:E; [|discriminate].
+  rewrite (d_u64_ext _ _ _ t E). destruct (N.leb_spec l (nlen r')) as [Hle|]; [|discriminate].
+  replace (l <=? nlen (r' ++ t)) with true by (unfold nlen in *; rewrite app_length; lia).
+  now apply take_ext.
+Qed.
+Lemma d_str_ext : ext d_str.
+Proof.
+  intros b x r t H. unfold d_str in *. destruct (d_bytes b) as [[s r']|] eqn:E; [|discriminate].
+  rewrite (d_bytes_ext _ _ _ t E). destruct (utf8_valid s); [|discriminate]. now inversion H.
+Qed.
+Lemma d_strs_n_ext : forall f n b l r, d_strs_n f n b = Some (l, r) ->
+  forall f' t, (f <= f')%nat -> d_strs_n f' n (b ++ t) = Some (l, r ++ t).
+Proof.
+  induction f as [|f IH]; intros n b l r H f' t Hf; cbn [d_strs_n] in H.
+  - destruct (n =? 0) eqn:En; [|discriminate]. inversion H; subst.
+    destruct f'; cbn [d_strs_n]; now rewrite En.
+  - destruct f' as [|f']; [lia|]. cbn [d_strs_n]. destruct (n =? 0); [now inversion H|].
+    destruct (d_str b) as [[s r1]|] eqn:E1; [|discriminate]. rewrite (d_str_ext _ _ _ t E1).
+    destruct (d_strs_n f (n - 1) r1) as [[l' r2]|] eqn:E2; [|discriminate]. inversion H; subst.
+    rewrite (IH _ _ _ _ E2 f' t) by lia. reflexivity.
+Qed.
+Lemma d_strs_ext : ext d_strs.
+Proof.
+  intros b x r t H. unfold d_strs in *. destruct (d_u64 b) as [[n r']|] eqn:E; [|discriminate].
+  rewrite (d_u64_ext _ _ _ t E). apply d_strs_n_ext with (f := length r'); [exact H|].
+  rewrite app_length. lia.
+Qed.
+Lemma bind_ext : forall A B (p : parser A) (f : A -> parser B),
+  ext p -> (forall a, ext (f a)) -> ext (bind p f).
+Proof.
+  intros A B p f Hp Hf b x r t H. unfold bind in *. destruct (p b) as [[a r']|] eqn:E; [|discriminate].
+  rewrite (Hp _ _ _ t E). now apply Hf.
+Qed.
+Lemma ret_ext : forall A (a : A), ext (ret a).
+Proof. intros A a b x r t H. unfold ret in *. now inversion H. Qed.
+Lemma none_ext : forall A, ext (fun _ : bytes => @None (A * bytes)).
+Proof. intros A b x r t H. discriminate. Qed.
+
+Ltac ext_tac :=
+  repeat first [ apply ret_ext | apply none_ext | apply d_str_ext | apply d_u64_ext | apply d_u32_ext
+               | apply d_bytes_ext | apply d_strs_ext | apply d_i64_ext
+               | (apply bind_ext; [|intro]) ].
+
+Lemma d_entry_ext : ext d_entry.
+Proof.
+  unfold d_entry. apply bind_ext; [apply d_u32_ext|]. intro tag.
+  repeat match goal with |- ext (if ?c then _ else _) => destruct c end; ext_tac.
+Qed.
+Lemma d_record_ext : ext d_record.
+Proof.
+  unfold d_record. apply bind_ext; [apply d_u64_ext|]. intro s.
+  apply bind_ext; [apply d_entry_ext|]. intro e. ext_tac.
+Qed.
+
+(* no proper prefix and no proper extension of a record body is accepted *)
+Lemma body_prefix_rejected : forall r b1 t, valid_rec r -> encode_record r = b1 ++ t -> t <> [] ->
+  decode_record b1 = None.
+Proof.
+  intros r b1 t Hv E Ht. destruct (decode_record b1) as [r'|] eqn:D; [exfalso | reflexivity].
+  apply decode_is_d_record in D. destruct D as [rest0 D].
+  pose proof (d_record_ext _ _ _ t D) as D'. rewrite <- E in D'.
+  pose proof (d_record_app r [] Hv) as D0. rewrite app_nil_r in D0. rewrite D0 in D'.
+  inversion D' as [[E1 E2]]. symmetry in E2. apply app_eq_nil in E2. tauto.
+Qed.
+
+Lemma body_extension_rejected : forall r t, valid_rec r -> t <> [] ->
+  decode_record (encode_record r ++ t) = None.
+Proof.
+  intros r t Hv Ht. destruct (decode_record (encode_record r ++ t)) as [r'|] eqn:D; [exfalso | reflexivity].
+  pose proof D as D1. apply decode_is_d_record in D1. destruct D1 as [rest0 D1].
+  rewrite d_record_app in D1 by exact Hv. inversion D1 as [[E1 E2]]. rewrite <- E1 in D.
+  apply decode_inv in D. destruct D as [D _]. apply (f_equal (@length N)) in D.
+  rewrite app_length in D. destruct t; [congruence | cbn [length] in D; lia].
+Qed.
+
+Lemma firstn4_any : forall (U b : bytes), length U = 4%nat -> firstn 4 (U ++ b) = U /\ skipn 4 (U ++ b) = b.
+Proof. intros U b H. rewrite <- H. split; [apply firstn_app_exact | apply skipn_app_exact]. Qed.
+
+(* a frame with one changed byte outside its sequence field is never read as a record *)
+Lemma scan_bad_frame : forall r q v f X, valid_rec r ->
+  (q < length (frame r))%nat -> ~ (4 <= q < 12)%nat -> isbyte v -> v <> nth q (frame r) 0 ->
+  exists t, scan (S f) (set_nth q v (frame r) ++ X) = ([], t, 0) /\ (t = Torn \/ t = Bad).
+Proof.
+  intros r q v f X Hv Hq Hns Hb Hne. pose proof Hv as (_ & _ & _ & Hl).
+  rewrite frame_length in Hq. unfold frame in *. cbv zeta in *.
+  set (body := encode_record r) in *. set (U := u32 (nlen body)) in *.
+  assert (LU : length U = 4%nat) by apply le_length.
+  rewrite scan_S.
+  2:{ intros E. apply (f_equal (@length N)) in E. rewrite app_length, set_nth_length, app_length, LU in E.
+      cbn in E. lia. }
+  replace (nlen (set_nth q v (U ++ body) ++ X) <? 4) with false.
+  2:{ unfold nlen. rewrite app_length, set_nth_length, app_length, LU. lia. }
+  cbv zeta. destruct (Nat.lt_ge_cases q 4) as [Hlt|Hge].
+  - rewrite set_nth_app_l by lia. rewrite nth_app_l in Hne by lia. rewrite <- app_assoc.
+    set (U' := set_nth q v U) in *.
+    assert (LU' : length U' = 4%nat) by (subst U'; now rewrite set_nth_length).
+    destruct (firstn4_any U' (body ++ X) LU') as [-> ->].
+    assert (BU' : Forall isbyte U') by (apply set_nth_isbyte; [apply le_bytes | exact Hb]).
+    assert (Hlen : unle U' <> nlen body).
+    { intros E. pose proof (le_unle U' BU') as E'. rewrite LU', E in E'.
+      revert E'. fold (u32 (nlen body)). fold U. intros E'. symmetry in E'. revert E'.
+      apply set_nth_neq; [lia | exact Hne]. }
+    destruct (N.ltb_spec (nlen (body ++ X)) (unle U')) as [|Hfit]; [exists Torn; split; auto|].
+    exists Bad. split; [|now right].
+    unfold nlen in Hfit, Hlen. rewrite app_length in Hfit.
+    destruct (N.lt_ge_cases (unle U') (N.of_nat (length body))) as [Hs|Hg].
+    + rewrite firstn_app. replace (N.to_nat (unle U') - length body)%nat with 0%nat by lia.
+      rewrite firstn_O, app_nil_r.
+      rewrite (body_prefix_rejected r _ (skipn (N.to_nat (unle U')) body) Hv); [reflexivity | |].
+      * fold body. now rewrite firstn_skipn.
+      * intros E. apply (f_equal (@length N)) in E. rewrite skipn_length in E. cbn [length] in E. lia.
+    + rewrite firstn_app, firstn_all2 by lia. unfold body at 1.
+      rewrite body_extension_rejected; [reflexivity | exact Hv |].
+      intros E. apply (f_equal (@length N)) in E. rewrite firstn_length_le in E by lia. cbn [length] in E. lia.
+  - rewrite set_nth_app_r by lia. rewrite nth_app_r in Hne by lia. rewrite LU in *. rewrite <- app_assoc.
+    subst U. rewrite firstn4_u32, skipn4_u32, unle_u32 by exact Hl.
+    replace (nlen (set_nth (q - 4) v body ++ X) <? nlen body) with false.
+    2:{ unfold nlen. rewrite app_length, set_nth_length. lia. }
+    replace (N.to_nat (nlen body)) with (length (set_nth (q - 4) v body))
+      by (rewrite set_nth_length; unfold nlen; lia).
+    rewrite firstn_app_exact. subst body.
+    rewrite flip_body_detected; [exists Bad; split; auto | exact Hv | lia | exact Hb | exact Hne].
+Qed.
+
+Lemma locate : forall R p, (p < length (frames R))%nat ->
+  exists R1 r R2 q, R = R1 ++ r :: R2 /\ p = (length (frames R1) + q)%nat /\ (q < length (frame r))%nat.
+Proof.
+  induction R as [|r R IH]; intros p H; [cbn in H; lia|].
+  unfold frames in H. cbn [flat_map] in H. fold (frames R) in H. rewrite app_length in H.
+  destruct (Nat.lt_ge_cases p (length (frame r))) as [Hlt|Hge].
+  - exists [], r, R, p. split; [reflexivity|]. split; [cbn [frames flat_map length]; lia | exact Hlt].
+  - destruct (IH (p - length (frame r))%nat) as (R1 & r' & R2 & q & E1 & E2 & E3); [lia|].
+    exists (r :: R1), r', R2, q. split; [cbn [app]; now rewrite E1|]. split; [|exact E3].
+    unfold frames. cbn [flat_map]. fold (frames R1). rewrite app_length. lia.
+Qed.
+
+Lemma encode_record_len : forall r, (12 <= length (encode_record r))%nat.
+Proof. intros r. unfold encode_record, u64, u32. rewrite !app_length, !le_length. lia. Qed.
+
+Lemma unle_frame_head : forall a Y, valid_rec a ->
+  unle (firstn 4 (frame a ++ Y)) = nlen (encode_record a).
+Proof.
+  intros a Y (_ & _ & _ & Hl). unfold frame. cbv zeta. rewrite <- app_assoc, firstn4_u32.
+  now apply unle_u32.
+Qed.
+Lemma skipn_frame : forall a Y,
+  skipn (N.to_nat (4 + nlen (encode_record a))) (frame a ++ Y) = Y.
+Proof.
+  intros a Y. replace (N.to_nat (4 + nlen (encode_record a))) with (length (frame a))
+    by (rewrite frame_length; unfold nlen; lia).
+  apply skipn_app_exact.
+Qed.
+
+Lemma in_seq_frames : forall R1 r X q fuel, Forall valid_rec R1 -> valid_rec r ->
+  (q < length (frame r))%nat -> (length R1 < fuel)%nat ->
+  in_seq_field fuel (frames R1 ++ frame r ++ X) (N.of_nat (length (frames R1) + q)) = false ->
+  ~ (4 <= q < 12)%nat.
+Proof.
+  induction R1 as [|a R1 IH]; intros r X q fuel HR Hr Hq Hf H.
+  - destruct fuel as [|fuel]; [lia|]. cbn [frames flat_map app length Nat.add] in H.
+    pose proof Hr as (_ & _ & _ & Hl). cbn [in_seq_field] in H.
+    rewrite frame_length in Hq. pose proof (encode_record_len r) as H12.
+    replace (nlen (frame r ++ X) <? 4) with false in H
+      by (unfold nlen; rewrite app_length, frame_length; lia).
+    cbv zeta in H. destruct (N.ltb_spec (N.of_nat q) 4); [lia|].
+    destruct (N.ltb_spec (N.of_nat q) 12); [discriminate | lia].
+  - inversion HR as [|? ? Ha HR1]; subst. destruct fuel as [|fuel]; [cbn [length] in Hf; lia|].
+    pose proof Ha as (_ & _ & _ & Hl). pose proof (encode_record_len a) as H12.
+    unfold frames in H. cbn [flat_map] in H. fold (frames R1) in H. rewrite <- app_assoc in H.
+    cbn [in_seq_field] in H.
+    assert (LF : length (frame a) = (4 + length (encode_record a))%nat) by apply frame_length.
+    replace (nlen (frame a ++ frames R1 ++ frame r ++ X) <? 4) with false in H
+      by (unfold nlen; rewrite app_length, LF; lia).
+    cbv zeta in H. rewrite unle_frame_head in H by exact Ha. rewrite skipn_frame in H.
+    rewrite app_length, LF in H.
+    destruct (N.ltb_spec (N.of_nat (4 + length (encode_record a) + length (frames R1) + q)) 4); [lia|].
+    destruct (N.ltb_spec (N.of_nat (4 + length (encode_record a) + length (frames R1) + q)) 12); [lia|].
+    destruct (N.ltb_spec (N.of_nat (4 + length (encode_record a) + length (frames R1) + q))
+                (4 + nlen (encode_record a))); [unfold nlen in *; lia|].
+    replace (N.of_nat (4 + length (encode_record a) + length (frames R1) + q) - (4 + nlen (encode_record a)))
+      with (N.of_nat (length (frames R1) + q)) in H by (unfold nlen; lia).
+    apply (IH r X q fuel); try assumption. cbn [length] in Hf. lia.
+Qed.
+
+Lemma ss_mid : forall l1 x l2, StronglySorted N.lt (l1 ++ x :: l2) ->
+  Forall (fun y => y <> x) l1 /\ Forall (fun y => y <> x) l2.
+Proof.
+  induction l1 as [|a l1 IH]; intros x l2 H; cbn [app] in H.
+  - inversion H as [|? ? _ Hf]; subst. split; [constructor|].
+    eapply Forall_impl; [|exact Hf]. intros y Hy. cbn beta in Hy. lia.
+  - inversion H as [|? ? Hs Hf]; subst. destruct (IH _ _ Hs) as [H1 H2]. split; [|exact H2].
+    constructor; [|exact H1]. apply Forall_app in Hf. destruct Hf as [_ Hf]. inversion Hf; subst. lia.
+Qed.
+
+Lemma flip_dir_other : forall name pos v (d : dir), Forall (fun f => fst f <> name) d ->
+  flip_dir name pos v d = d.
+Proof.
+  intros name pos v d H. unfold flip_dir. induction H as [|f d Hf Hd IH]; [reflexivity|].
+  cbn [map]. rewrite IH. replace (fst f =? name) with false by lia. reflexivity.
+Qed.
+
+Lemma ne_names : forall (A : list afile) name, Forall (fun y => y <> name) (map fst A) ->
+  Forall (fun f : file => fst f <> name) (enc A).
+Proof.
+  intros A name H. unfold enc. rewrite Forall_map. rewrite Forall_map in H.
+  eapply Forall_impl; [|exact H]. intros a Ha. exact Ha.
+Qed.
+
+(* replay of a directory in which one byte of one file was changed *)
+Lemma replay_flip : forall A name R B pos v from,
+  StronglySorted N.lt (map fst (A ++ (name, R) :: B)) ->
+  Forall valid_rec (recs (A ++ (name, R) :: B)) ->
+  (pos < length (frames R))%nat -> isbyte v -> v <> nth pos (frames R) 0 ->
+  in_seq_field (S (length (frames R))) (frames R) (N.of_nat pos) = false ->
+  exists R1 r R2 o,
+    R = R1 ++ r :: R2 /\
+    replay (flip_dir name (N.of_nat pos) v (enc (A ++ (name, R) :: B))) from =
+    (keep from (recs A ++ R1), o).
+Proof.
+  intros A name R B pos v from Hs HV Hpos Hb Hne Hk.
+  rewrite recs_app, recs_cons in HV. cbn [snd] in HV.
+  apply Forall_app in HV. destruct HV as [HA HV]. apply Forall_app in HV. destruct HV as [HR HB].
+  destruct (locate R pos Hpos) as (R1 & r & R2 & q & ER & Ep & Hq).
+  exists R1, r, R2. subst R. apply Forall_app in HR. destruct HR as [HR1 HR2].
+  inversion HR2 as [|? ? Hr HR2']; subst.
+  assert (Hfr : frames (R1 ++ r :: R2) = frames R1 ++ frame r ++ frames R2).
+  { rewrite frames_app. unfold frames at 2. cbn [flat_map]. reflexivity. }
+  rewrite Hfr in *.
+  assert (Hnq : ~ (4 <= q < 12)%nat).
+  { apply (in_seq_frames R1 r (frames R2) q (S (length (frames R1 ++ frame r ++ frames R2)))); try assumption.
+    pose proof (frames_length_ge R1). rewrite app_length. lia. }
+  rewrite nth_app_r in Hne by lia. replace (length (frames R1) + q - length (frames R1))%nat with q in Hne by lia.
+  rewrite nth_app_l in Hne by exact Hq.
+  pose proof Hs as Hs'. rewrite map_app in Hs'. cbn [map fst] in Hs'. apply ss_mid in Hs'. destruct Hs' as [N1 N2].
+  rewrite enc_app. cbn [enc map fst snd]. fold (enc B).
+  unfold flip_dir. rewrite map_app. cbn [map fst snd]. rewrite N.eqb_refl.
+  fold (flip_dir name (N.of_nat (length (frames R1) + q)) v (enc A)).
+  fold (flip_dir name (N.of_nat (length (frames R1) + q)) v (enc B)).
+  rewrite !flip_dir_other by (apply ne_names; assumption).
+  rewrite Nnat.Nat2N.id. rewrite Hfr.
+  rewrite set_nth_app_r by lia. replace (length (frames R1) + q - length (frames R1))%nat with q by lia.
+  rewrite set_nth_app_l by exact Hq.
+  unfold replay. rewrite sort_sorted.
+  2:{ rewrite map_app. cbn [map fst]. rewrite !enc_names. rewrite map_app in Hs. exact Hs. }
+  rewrite replay_files_app_clean by exact HA. cbn [replay_files].
+  rewrite scan_file_frames_app by exact HR1.
+  pose proof (frames_length_ge R1) as HG.
+  destruct (S (length (frames R1 ++ set_nth q v (frame r) ++ frames R2)) - length R1)%nat as [|f] eqn:Ef.
+  { rewrite app_length in Ef. lia. }
+  destruct (scan_bad_frame r q v f (frames R2) Hr Hq Hnq Hb Hne) as (t & Et & Ht). rewrite Et.
+  rewrite app_nil_r. fold (keep from R1). rewrite keep_app.
+  destruct Ht as [-> | ->].
+  - destruct (enc B); eexists; split; reflexivity.
+  - eexists; split; reflexivity.
 Qed.
